@@ -5,7 +5,7 @@ E2 = "E2-mirsym"
 ENGINES = [
     {"name": E1, "path": "/verif/lib/kanirun.py", "serves_properties": ["C05", "C08", "C18", "C19"],
      "kind_free_text": "Kani 0.68 proof harnesses (CBMC 6.11 + CaDiCaL) over hyperdriver's compiled functions; harness sources in /verif/kani, instantiated per concrete size by /verif/props/<id>.py"},
-    {"name": E2, "path": "/verif/mirsym/run.py", "serves_properties": ["C02", "C04", "C05", "C06", "C09", "C12", "C13", "C15", "C16", "C17", "C20"],
+    {"name": E2, "path": "/verif/mirsym/run.py", "serves_properties": ["C02", "C03", "C04", "C05", "C06", "C09", "C12", "C13", "C14", "C15", "C16", "C17", "C20"],
      "kind_free_text": "path-wise symbolic execution of rustc's MIR (-Zunpretty=mir, regenerated from /repo on every run) with z3 (strings/bit-vectors), cvc5 cross-check, library calls replaced by a contract-level model table, counterexamples replayed through the public API by /verif/native"},
 ]
 NOTES = "see DESIGN.md. exit 0 = all obligations discharged within the stated bounds; exit 1 = VIOLATION (replayed natively); exit 2 = inconclusive (timeout, OOM, unsupported construct, unreproduced counterexample)."
@@ -16,6 +16,8 @@ MIR_NOTE = "Trusted: the mirsym MIR parser/executor, the model table for library
 CLAIMS = {
     "C02": {"engine": E2, "design_ref": "DESIGN.md 2/C02", "technique": "symbolic execution of rustc MIR with SMT: step contracts from arbitrary bounded pool states (collections, channels, mutex as contract-level models)", "note": MIR_NOTE,
             "text": "Each synchronous step on the release/hand-back path (Pooled::drop, WhenReady poll/drop, PoolInner::push, register_connected) decided from every bounded pre-state: a non-shareable connection ends in exactly one place, is never cloned, is not visible in the pool while waiting for readiness, and a shareable one never takes the hand-back path. Partial: multi-request interleavings are covered only as sequences of such steps."},
+    "C03": {"engine": E2, "design_ref": "DESIGN.md 2/C03", "technique": "bounded model checking over rustc MIR: the pool's own poll/drop functions driven by a scheduler whose choices (issue, poll-if-woken, cancel, dial outcome, release, background task) are solver/DFS decisions", "note": MIR_NOTE,
+            "text": "For 2 (thorough: 3) requests to one origin and every schedule of up to 6 scheduler actions followed by a drain phase: no non-cancelled request is left pending once every dial has completed and no task is runnable (tasks are only polled when woken, so lost wake-ups count). Bounded: longer schedules and more requests are outside."},
     "C04": {"engine": E2, "design_ref": "DESIGN.md 2/C04", "technique": "symbolic execution of rustc MIR with SMT: step contracts of Pool::checkout / pop / push / register_connected", "note": MIR_NOTE,
             "text": "Pool::checkout reuses an open idle connection instead of dialing, becomes a pure waiter while an attempt is in flight, marks multiplexed dials; a finished multiplexed attempt serves all waiters and is stored; pop returns the newest eligible entry. Partial: polled/cancelled checkouts are outside."},
     "C05": {"engine": E1, "design_ref": "DESIGN.md 2/C05", "technique": "bounded model checking of the compiled code (Kani/CBMC, virtual clock as solver variable) + symbolic execution of rustc MIR with SMT for PoolInner::pop and the hand-back gate", "note": KANI_NOTE + " " + MIR_NOTE,
@@ -30,6 +32,8 @@ CLAIMS = {
             "text": "The duplex listener's accept paths decided for every queue of <= 3 connection requests with any subset of clients having given up: an error / end of stream is produced only when the listener's channel is closed. Partial: the serving loop itself and OS listeners are outside (stated)."},
     "C12": {"engine": E2, "design_ref": "DESIGN.md 2/C12", "technique": "symbolic execution of rustc MIR with SMT (z3), counterexamples replayed natively", "note": MIR_NOTE,
             "text": "TlsTransport::call / TlsTransportWrapper::call decided for every URI form and TLS configuration: TLS iff configured and https|wss, server name = URI host, no plaintext connect after a TLS-side error, and building the TLS stream cannot panic for any syntactically valid host."},
+    "C14": {"engine": E2, "design_ref": "DESIGN.md 2/C14", "technique": "bounded model checking over rustc MIR (scheduler-driven pool world) + a targeted pre-emption obligation", "note": MIR_NOTE,
+            "text": "A request dialing its own connection takes a connection released for its origin no later than its next poll, however often it was polled before; in every explored schedule an open idle connection never coexists with a request of that origin that is still waiting."},
     "C15": {"engine": E2, "design_ref": "DESIGN.md 2/C15", "technique": "symbolic execution of rustc MIR with SMT: inductive step on the only insertion site of the idle list", "note": MIR_NOTE,
             "text": "From every pre-state with len <= max_idle_per_host (max in {0,1,2,8}) one push / one release leaves len <= max; pop never adds: the bound holds at every point of every history."},
     "C16": {"engine": E2, "design_ref": "DESIGN.md 2/C16", "technique": "symbolic execution of rustc MIR with SMT; VecDeque as a list model validated through the verif-hooks feature", "note": MIR_NOTE,
@@ -46,9 +50,7 @@ CLAIMS = {
 
 NOT_APPLICABLE = {
     "C01": "end-to-end statement about hyper's codecs, real task scheduling and many concurrent requests; neither engine can execute hyper+tokio (Kani ICE on runtime thread-locals). Its crate-local pieces are decided under C18, C08, C02.",
-    "C03": "liveness over interleavings of several Checkout futures (oneshot Receiver::poll, PinnedDrop, spawned continuation); Kani cannot compile tokio's oneshot poll path and the MIR engine does not model coroutine/poll schedules.",
     "C10": "the algorithm is a set of nested compiler-generated futures over FuturesUnordered and tokio timers; probes: > 15 min / 3.5 GB without reaching the solver (DESIGN section 0).",
     "C11": "same blocker as C10.",
-    "C07": "not claimed yet: check under construction",
-    "C14": "needs a live Checkout polled after a push and the delayed-drop respawn path; same blockers as C03.",
+    "C07": "GracefulShutdown::poll / Serving::poll / the connection drivers are pin-projected state machines over tokio::sync::watch, the executor and hyper's connection futures; the Kani probe did not terminate and a MIR model of watch + hyper's graceful shutdown would verify my model of hyper rather than the crate (DESIGN.md 2/C07)",
 }
